@@ -120,7 +120,10 @@ def gen_trace(seed: int, tier: str) -> dict:
         from . import c09
         c09.build_catalog()
         events, sw = common.gen_history(seed, n_events=n, families=["c09", "text", "dml", "charts"], always=("c09",),
-                                        ckpt=0.02, reopen=0.03, restart=0.0, observe=0.02, jump=0.0, fork=0.0, warmup=False)
+                                        ckpt=0.02, reopen=0.06, restart=0.0, observe=0.02, jump=0.0, fork=0.0, warmup=False)
+        # between two sessions another producer rewrites the file: optional children it writes and python-pptx never does (custom dashes on
+        # outlines, shape properties in c:dLbls), booleans as words
+        common.rewritten_between_sessions(seed, events, hows=("optional_children", "charts:optional_children", "bool_words"), rate=0.6)
         rb = S("bad")
         for e in events:
             if e["op"] == "c09.set" and rb.random() < 0.35 and c09.CAT[e["entry"]]["bad"]:
@@ -132,6 +135,7 @@ def gen_trace(seed: int, tier: str) -> dict:
     events, sw = common.gen_history(
         seed, n_events=n, families=FORMAT_FAMILIES, always=("text",) if r.random() < 0.5 else (),
         src_fault_rate=0.1, ckpt=0.03, reopen=0.04, restart=0.01, observe=0.03, jump=0.0, fork=0.0)
+    common.rewritten_between_sessions(seed, events, hows=("optional_children", "charts:optional_children", "bool_words", "hover_links"), rate=0.4)
     return {"property": ID, "seed": seed, "tier": tier,
             "config": {"families": sw["families"], "max_slides": 8, "max_shapes": 30},
             "start": [start], "events": events}
